@@ -679,6 +679,11 @@ func (e *CoreExtension) functionRandom(args ...interface{}) (interface{}, error)
 		return nil, errors.New("max must be greater than min")
 	}
 
+	// The number of values in [min, max] has to fit into an int
+	if (min < 0 && max > math.MaxInt-1+min) || (min == 0 && max == math.MaxInt) {
+		return nil, errors.New("the range between min and max is too large")
+	}
+
 	// Generate a random number in the range [min, max]
 	return min + rand.Intn(max-min+1), nil
 }
